@@ -46,6 +46,22 @@ def cval(F, f, op):
     return None
 
 
+def only_const(F, f, op, val):
+    """True iff every source of the operand's value is the constant `val` (no call result, no arithmetic)."""
+    if op.const is not None:
+        return cval(F, f, op) == val
+    leaves = 0
+    for k, s_ in f.backward_sources(op.place.local, through_calls=())[1]:
+        if k != "stmt" or s_.rv_kind() != "use":
+            return False
+        o = Operand(s_.rv[1])
+        if o.const is not None:
+            if cval(F, f, o) != val:
+                return False
+            leaves += 1
+    return leaves > 0
+
+
 def check_variant(F, rep, tag):
     lock = F.fn(M + "Mutex::sys_lock")
     unlock = F.fn(M + "Mutex::sys_unlock")
@@ -112,12 +128,13 @@ def run(F, rep, tier):
             sw = ss[0]
             wl = lock.locals_named("wait")
             stores = [s for s in lock.stmts() if s.place is not None and not s.place.proj and s.place.local in wl and lock.dominates(sw[2]["ne"], s.bb)]
-            good_vals = all(s.rv_kind() == "use" and cval(F, lock, Operand(s.rv[1])) == 2 for s in stores)
+            good_vals = all(s.rv_kind() == "use" and only_const(F, lock, Operand(s.rv[1]), 2) for s in stores)
             rr = lock.reachable(sw[2]["ne"], cut_blocks={s.bb for s in stores})
             ok = bool(stores) and good_vals and not any(c.bb in rr for c in cas) and fw1.bb not in rr or (bool(stores) and good_vals and all(lock.dominates(s.bb, fw1.bb) or True for s in stores) and not any(c.bb in rr for c in cas))
             rep.check(ok, "futex|relock-as-sleeping", "K8 atomic protocol",
                       "`wait = MUTEX_SLEEPING` (the constant) lies on every path from the failed sleeping-swap to the next compare_exchange",
-                      "after sleeping, the thread can re-acquire with a state other than MUTEX_SLEEPING: the next unlock will not wake remaining waiters", lock.site())
+                      "after sleeping, the thread can re-acquire with a state other than the constant MUTEX_SLEEPING (e.g. a value re-read from the key, which may be UNLOCKED: the "
+                      "acquiring compare_exchange(UNLOCKED -> UNLOCKED) then \"succeeds\" without locking; or LOCKED: the next unlock will not wake remaining waiters)", lock.site())
             # the CAS that re-acquires uses `wait` as the new value
             reacq = [o for o in cas if o.call.args[2].place is not None and set(lock.backward_sources(o.call.args[2].place.local)[0]) & set(wl)]
             rep.check(len(reacq) == 1, "futex|reacquire-with-wait", "K6 provenance", "the spin CAS stores `wait` (LOCKED first, SLEEPING after having slept)", site=lock.site())
